@@ -264,19 +264,30 @@ func propC05(c *Check) {
 	idx := "φ{-1|" + i + "}"
 	c.RequireFact(fin, "R4", "Validate", lit("(MsgFinalizeWithdrawal.Validate($2) == nil)"), nil, "")
 	c.RequireFact(fin, "R4", "processing-entry", lit("(Processing.Get($2.Pid)#1 == nil)"), nil, "")
-	c.RequireFact(fin, "R4", "txid-found", lit(NE("-1", idx)), nil, "")
-	// the match index is set only under bytes.Equal(recorded txid, req.Txid)
+	c.RequireFact(fin, "R4", "txid-found", lit(NE("-1", idx))+"|"+lit("(0 <= "+idx+")")+"|"+lit("(-1 < "+idx+")"), nil, "")
+	// the match index is set only under bytes.Equal(recorded txid, req.Txid) (in the handler or in a private search helper)
 	matched := false
-	for _, b := range fin.Blocks {
-		for _, in := range b.Instrs {
-			ph, ok := in.(*ssa.Phi)
-			if !ok || p.R(fin).E(ph) != idx {
-				continue
+	eqFact := lit("bytes.Equal(Processing.Get($2.Pid)#0.Txid["+i+"], $2.Txid)")
+	for _, x := range p.helperContexts(fin) {
+		if x.call != nil && p.CallStr(x.call) == idx {
+			// a search helper returning the index: the index is returned only under the equality
+			for _, e := range Exits(x.fn) {
+				if e.Kind != exitFailure && len(e.Ret.Results) > 0 && x.r.E(e.Ret.Results[0]) == i {
+					matched = c.requireFactCtx(x, "R4", "match-index-under-txid-equality", eqFact, instrSet([]ssa.Instruction{e.Ret}), "match index result")
+				}
 			}
-			for k, e := range ph.Edges {
-				if p.R(fin).E(e) == i {
-					t := b.Preds[k].Instrs[len(b.Preds[k].Instrs)-1]
-					matched = c.RequireFact(fin, "R4", "match-index-under-txid-equality", lit("bytes.Equal(Processing.Get($2.Pid)#0.Txid["+i+"], $2.Txid)"), instrSet([]ssa.Instruction{t}), "match index assignment")
+		}
+		for _, b := range x.fn.Blocks {
+			for _, in := range b.Instrs {
+				ph, ok := in.(*ssa.Phi)
+				if !ok || x.r.E(ph) != idx {
+					continue
+				}
+				for k, e := range ph.Edges {
+					if x.r.E(e) == i {
+						t := b.Preds[k].Instrs[len(b.Preds[k].Instrs)-1]
+						matched = c.requireFactCtx(x, "R4", "match-index-under-txid-equality", lit("bytes.Equal(Processing.Get($2.Pid)#0.Txid["+i+"], $2.Txid)"), instrSet([]ssa.Instruction{t}), "match index assignment")
+					}
 				}
 			}
 		}
@@ -482,7 +493,8 @@ func propC05(c *Check) {
 		}
 		if len(A) == 1 {
 			// after the flush the queue is stored before success
-			ps := &PathSearch{Fn: pbr, From: A[0], AvoidEdges: edgeSet(p.MatchEdges(pbr, regexp.MustCompile(lit("(EthTxQueue.Set(EthTxQueue.Get()#0) == nil)")))), IsTarget: successTargets(pbr)}
+			qRe := regexp.MustCompile(lit("(EthTxQueue.Set(EthTxQueue.Get()#0) == nil)"))
+			ps := &PathSearch{Fn: pbr, From: A[0], AvoidEdges: edgeSet(p.MatchEdges(pbr, qRe)), IsTarget: p.successTargetsFor(pbr, qRe)}
 			if t, path := ps.Find(); t != nil {
 				c.Violated("R2", "refund-queue-stored @ "+FuncKey(pbr), p.InstrPos(t), "refunds appended but the queue is not stored on a success path", p.describePath(path)...)
 			} else {
